@@ -46,6 +46,8 @@ def plan(tier, seed):
     # rows already in the dataset read back as written after an append widened the codes of a categorical column
     from . import pageloop
     jobs += [j for j in pageloop.page_jobs("C07", tier) if "selfmade=1" in j["name"]]
+    jobs.append(dict(name="C07-lemma-time-factor-table", kind="pyfunc", timeout=300,
+                     payload=dict(func="vf.pyshim.lemma_time2:time_factor_table")))
     extra = dict(
         explanation="Single file: the real write_simple append branch on a symbolic file (data length, old/new footer "
                     "length, row-group sizes symbolic): the old length field is read from its place, every write "
